@@ -30,6 +30,7 @@ REGISTRY = {
     "C13": ("c13", ["Esp.Props.C13"]),
     "C14": ("c14", ["Esp.Props.C14Tables", "Esp.Props.C14"]),
     "C15": ("c15", ["Esp.Props.C15"]),
+    "C16": ("c16", ["Esp.Props.C16"]),
     "C17": ("c17", ["Esp.Props.C17"]),
     "C20": ("c20", ["Esp.Props.C20"]),
     "C19": ("c19", ["Esp.Props.C19"]),
